@@ -614,6 +614,52 @@ fn blocking(rep: &mut Report) {
             let _ = tokio::time::timeout(Duration::from_secs(10), jh).await;
         });
     }
+    // (b4) a reply belongs to its request, also after a timeout on the same calling thread: a timed-out
+    //      blocking_ask whose reply arrives late must not be handed to the next blocking_ask
+    {
+        note("blocking (b4): blocking_ask(100 ms) times out, its reply comes late, the next blocking_ask on the same thread".into());
+        let log = Arc::new(Mutex::new(vec![]));
+        let (r, jh) = rt.block_on(async { spawn_with_mailbox_capacity::<B>((log.clone(), 300), 4) });
+        let first = r.blocking_ask(W(61), Some(Duration::from_millis(100)));
+        if !matches!(first, Err(rsactor::Error::Timeout { .. })) {
+            rep.v("C17 C10", format!("blocking_ask(100 ms) against a 300 ms handler: expected Err(Timeout), got {first:?}"));
+        }
+        std::thread::sleep(Duration::from_millis(350)); // the late reply to W(61) is produced now
+        for id in [62u32, 63] {
+            let res = r.blocking_ask(W(id), Some(Duration::from_secs(5)));
+            calls += 1;
+            match res {
+                Ok(v) if v == id => {}
+                other => rep.v("C17 C03", format!("blocking_ask(W({id}), 5 s) after a timed-out blocking_ask(W(61)) on the same thread returned {other:?}: a reply must belong to its own request")),
+            }
+        }
+        rt.block_on(async {
+            let _ = r.kill();
+            let _ = tokio::time::timeout(Duration::from_secs(10), jh).await;
+        });
+    }
+    // (b5) tiny timeouts: shorter than a thread start - the outcome is still Ok or Timeout, never a Send error
+    //      on a live actor, and never a panic
+    {
+        note("blocking (b5): zero and sub-microsecond timeouts on a live actor".into());
+        let log = Arc::new(Mutex::new(vec![]));
+        let (r, jh) = rt.block_on(async { spawn_with_mailbox_capacity::<B>((log.clone(), 0), 8) });
+        for (k, d) in [Duration::ZERO, Duration::from_nanos(1), Duration::from_micros(1)].into_iter().enumerate() {
+            let t = r.blocking_tell(W(70 + k as u32), Some(d));
+            let a = r.blocking_ask(W(80 + k as u32), Some(d));
+            calls += 2;
+            if !matches!(t, Ok(()) | Err(rsactor::Error::Timeout { .. })) {
+                rep.v("C17 C10", format!("blocking_tell(.., Some({d:?})) on a live actor with a free mailbox returned {t:?}: only Ok or a (retryable) Timeout are possible"));
+            }
+            if !matches!(a, Ok(_) | Err(rsactor::Error::Timeout { .. })) {
+                rep.v("C17 C10", format!("blocking_ask(.., Some({d:?})) on a live actor returned {a:?}: only Ok or a (retryable) Timeout are possible"));
+            }
+        }
+        rt.block_on(async {
+            let _ = r.kill();
+            let _ = tokio::time::timeout(Duration::from_secs(10), jh).await;
+        });
+    }
     // (c) the timeout variants may be called from inside a runtime context
     {
         let ok = rt.block_on(async {
